@@ -669,7 +669,7 @@ def segments_to_lines(segs, src):
 
 
 def load_macro(src, name):
-    """R4: read `macro_rules! name { (params) => { body }; }` (single arm, `$x:expr` fragments only)"""
+    """R4: read `macro_rules! name { (params) => { body }; }` (single arm, `$x:expr` / `$x:ident` fragments only)"""
     it = locate(src, 'macro_rules ' + name)
     toks = src.toks
     if it['body_open'] is None:
@@ -684,7 +684,7 @@ def load_macro(src, name):
         part = part.strip()
         if not part:
             continue
-        m = re.match(r'^\$([A-Za-z_][A-Za-z0-9_]*)\s*:\s*expr$', part)
+        m = re.match(r'^\$([A-Za-z_][A-Za-z0-9_]*)\s*:\s*(?:expr|ident)$', part)
         if not m:
             raise Lost('macro %s: unsupported fragment `%s`' % (name, part))
         params.append(m.group(1))
